@@ -48,6 +48,14 @@ def decorate(rng, src, allow_slashes_in_block=True):
                 buf.append(t)
                 prev = t
                 continue
+            # no blank at all where the two tokens cannot merge: next to ; , ( ) { } [ ], or a * against a name
+            glue_ok = prev is not None and (prev[-1] in ';,(){}[]' or t[0] in ';,(){}[]'
+                                            or ((prev[-1].isalnum() or prev[-1] == '_') and t == '*')
+                                            or (prev == '*' and (t[0].isalpha() or t[0] == '_')))
+            if glue_ok and k > 0.88:
+                buf.append(t)
+                prev = t
+                continue
             if k < 0.08:
                 body = ''.join(rng.choice(['x', ' ', '"', "'", '/*', '#define A 1', 'a = 1;', '*', 'char q;'] +
                                           (['http://x.org', '//'] if allow_slashes_in_block else []))
